@@ -385,6 +385,17 @@ theorem fp_grease_share_kept (ss : List (Nat × Bytes)) (hwf : WF (keyShare ss))
 example : Ext.write false 51 (body (keyShare [(0x1a1a, List.replicate 32 7), (29, List.replicate 32 1), (0x2a2a, [8, 9])])) =
     .ok (keyShare [(0x0a0a, List.replicate 32 7), (29, []), (0x0a0a, [8, 9])]) := by decide +kernel
 
+/-- **a fingerprint is a function of the record and the flags only**: whatever the receiver held
+before, and whatever is fingerprinted with the same receiver afterwards, the `i`-th result kept by value
+is the fingerprint of the `i`-th record — so `fp_roundtrip` / `fp_len_eq` / `fp_idempotent` apply to every
+element of such a sequence. (In the code this is `*chs = ClientHelloSpec{}` at the top of `FromRaw`: fresh
+fields and a fresh extension array per call; the tie applies kept results after later calls.) -/
+theorem fp_sequence_independent (recv : Import.Spec) (blunt realPSK : Bool) (raws : List Bytes) :
+    fromRawSeq recv blunt realPSK raws = raws.map fun raw => Import.fromRaw raw blunt realPSK := by
+  induction raws generalizing recv with
+  | nil => rfl
+  | cons raw rest ih => simp only [fromRawSeq, fromRawInto, List.map_cons, ih]
+
 /-! ## Non-vacuity, and why the guard is needed -/
 
 /-- a Chrome-like capture: GREASE, SNI, supported_groups with GREASE, ALPN, key_share (GREASE + X25519),
